@@ -20,7 +20,7 @@ Paths == {PathOrder[i] : i \in 1..Len(PathOrder)}
 Absent == "-"
 Contents == {"c1", "c2", "ce"}
 DocOrder == <<"buf.md", "README.md", "README.markdown">>
-IsProto(p) == p \in {"a.proto", "t.proto", "t/x.proto", "p/a.proto", "p-q/a.proto", "d x/c.proto", "d/u-umlaut.proto", "d  e.proto"}
+IsProto(p) == p \in {"a.proto", "t.proto", "t/x.proto", "p/a.proto", "p-q/a.proto", "d x/c.proto", "d/u-umlaut.proto", "d  e.proto", " lead.proto", "wide-space.proto"}
 
 VARIABLES files,    \* [Paths -> Contents \cup {Absent}]
           name,     \* module name id (must not matter)
